@@ -28,7 +28,8 @@ DECIDES = ('S1: in every function of Coroutine.c/AsyncGen.c that calls __Pyx_Cor
            '`switch (gen->resume_label)` into an insertion point taken before the body, `case 0` to a placed first-run label, and after '
            'generate_function_body() one unconditional `case number: goto label` per element of code.yield_labels with the placeholders bound in pair order. '
            'RL: the finished marker stored by the generated body is negative, the C constructor initialises resume_label to the first-run case, and every '
-           'C comparison of resume_label with a constant separates values that are really stored (-1 / 0 / 1..n).')
+           'C comparison of resume_label with a constant separates values that are really stored (-1 / 0 / 1..n). '
+           'UNDEL: every jump to throw_here in __Pyx__Coroutine_Throw is dominated by __Pyx_Coroutine_Undelegate(gen).')
 NOT_DECIDED = ('the observable trace itself (values, StopIteration payloads, finally blocks, exception chaining) — only the run-state and resume-point '
                'bookkeeping is decided. Rule S3 of the design (raise => error return on the same CFGs) is not armed: its 12 untriaged sites need value '
                'tracking and would be a proxy today. The typestate is path-sensitive only in the test_and_set result (directly, through !/__builtin_expect/'
@@ -78,5 +79,6 @@ PRESERVING = [
 
 
 def run(ctx):
+    from ..rules import undeleg
     # the quick tier already runs the clang CFG version (about 1 s for the clang call); the thorough tier is the same analysis
-    return [pC23.rule_S1(ctx), pC23.rule_S1b(ctx), pC23.rule_S1c(ctx), pC23.rule_YL(ctx), pC23.rule_RL(ctx)]
+    return [pC23.rule_S1(ctx), pC23.rule_S1b(ctx), pC23.rule_S1c(ctx), pC23.rule_YL(ctx), pC23.rule_RL(ctx), undeleg.rule_undelegate(ctx)]
